@@ -397,6 +397,11 @@ func generate(rng *rand.Rand, steps int, profile string) ([]string, []string, ma
 			}
 			for rng.Intn(2) == 0 {
 				g.write(rng) // all three replicas are RW now
+				if rng.Intn(3) == 0 {
+					g.snapN++
+					g.do(fmt.Sprintf("csnap v%d", g.snapN)) // a volume snapshot through the controller
+					g.feat["volume-snapshot"] = true
+				}
 			}
 			g.do("cmp")
 			g.do("meta")
